@@ -1,5 +1,5 @@
 # What each claimed check asserts about itself (copied into MANIFEST.json by gen_manifest.py).
-HOOK_COMMITS = ["60bdaa0", "64099f4", "7349612", "942f497", "7ee450a"]
+HOOK_COMMITS = ["60bdaa0", "64099f4", "7349612", "942f497", "7ee450a", "8054de0"]
 NOT_APPLICABLE = {}
 CLAIMS = {
     "C20": {
@@ -430,3 +430,5 @@ CLAIMS["C07"]["note"] += (" In TestScopes 'charged' is read as counted by Stat()
 CLAIMS["C13"]["text"] += (" Histories include other components' use of the peerstore's address streams (AddrStream subscribers on the remote peer or a bystander, subscribing at any point incl. right after the recently-connected lifetime expired and before the address book collects the entry; consumers idle, eager or reading at steps; cancel). "
     "Identify-waits must still be released by their deadlines, streams may carry only correctly attributed addresses, and a case in which identify or the address book waits for a lock that can never be released fails.")
 CLAIMS["C13"]["note"] += (" A frozen case is recognised from outside the bubble by goroutine states (TestWatcherSelfCheck guards the runtime dump format; if that broke, a freeze would end as an inconclusive hang, not a pass). The harness never waits for virtual time under a lock of identify or the peerstore, so a freeze is a stall of the code under test.")
+
+CLAIMS["C20"]["text"] += (" The counter's reported State() is compared with the state the history implies after every event (no full window: Probing; full window with too few successes: Blocked; else Allowed), and the read-only expectations of the swarm-level part are computed from that history-derived state, not from the counter's own answer.")
